@@ -74,9 +74,20 @@ def run(ctx, cmds, n, truncated=False):
     uni = pc.Universe()
     sg = StreamGen(uni)
     cases, api, meta = [], [], []
+    # the first command line of every command has no --count and a long dump: an omitted count means no limit (if the source
+    # gives the option another default than -1, the dump is made longer than that default)
+    long_ops = 60
+    try:
+        from ..translate import tr_cli
+        d = int(tr_cli.extract()[2]['count'][2])
+        if 0 <= d < 3000:
+            long_ops = max(long_ops, d + 10)
+    except Exception:
+        pass
     for i in range(n):
         cmd = cmds[i % len(cmds)]
-        threads, evs = sg.gen(rng, n_ops=rng.choice([6, 12, 20]), rich=True)
+        first_round = i < len(cmds) and not truncated
+        threads, evs = sg.gen(rng, n_ops=long_ops if first_round else rng.choice([6, 12, 20]), rich=True)
         if cmd == 'callstacks':
             c = sg.c
             evs += [[threads[0][0], c['PERF_Event'], 1, [1, 0, 0, 0]], [threads[0][0], c['PERF_THD_Data'], 0, [77, 0x999, 0, 1]],
@@ -95,6 +106,8 @@ def run(ctx, cmds, n, truncated=False):
         if truncated:
             data = data[:rng.randrange(len(data) + 1)]
         argv, cfg, count = gen_options(rng, cmd, tids, procs, evs)
+        if first_round:
+            argv, cfg, count = argv[:1], {}, None       # the command alone, no option at all: every default at once
         cases.append({'file': data.hex(), 'argv': argv})
         api.append({'file': data.hex(), 'cfg': cfg, 'calls': [API_OF[cmd]]})
         meta.append((cmd, argv, cfg, count, threads, evs))
